@@ -281,7 +281,11 @@ func checkLogGrowth(pre, post *Snapshot, op Op) []Violation {
 	}
 	if !op.IsMutation() {
 		if string(pre.Log) != string(post.Log) {
-			return []Violation{{"C12", "read-only command changed the log"}}
+			v := []Violation{{"C12", "read-only command changed the log"}}
+			if op.Kind == "prune" {
+				v = append(v, Violation{"C09", "the prune dry run wrote to the log"})
+			}
+			return v
 		}
 		return nil
 	}
